@@ -728,6 +728,14 @@ theorem vm_error_texts_nonempty :
     (∀ p ∈ vmErrorTexts, p.2 ≠ "") ∧ (∀ p ∈ vmErrorFormats, p.2 ≠ "") ∧ FxVerif.Gen.C18E.revertText ≠ "" :=
   ⟨texts_nonempty, formats_nonempty, revertText_nonempty⟩
 
+/-- **where the response comes from** (regenerated from the ethermint fork): `VmError` is the text of the interpreter's
+error when there is one and is assigned nowhere else (so `""` otherwise), `Ret` is the interpreter's return data, and the
+error is the one of `evm.Create` / `evm.Call` — the shape `Model/C18E.respOf` models -/
+theorem apply_message_response_is_the_interpreters :
+    FxVerif.Gen.C18E.applyMessageVmErrorExpr = "vmError" ∧ FxVerif.Gen.C18E.applyMessageRetExpr = "ret" ∧
+    FxVerif.Gen.C18E.applyMessageVmErrorAssigns = [("vmErr != nil", "vmErr.Error()")] ∧
+    FxVerif.Gen.C18E.applyMessageVmErrSources = ["evm.Create", "evm.Call"] := by decide
+
 /-- **any helper, by induction over its statement list**: no write of the response and a return on every path ⇒ the
 caller gets exactly the response `ApplyMessage` built, or an error — for every uninterpreted condition and every
 outcome of the interpreter -/
